@@ -5,7 +5,8 @@
    [_refuted] theorems; the witnesses are replayed on the Go driver on every run (props/c16.py WITNESSES). *)
 From Coq Require Import ZArith List Bool Lia.
 Import ListNotations.
-From Osmo Require Import C16.Model C16.Spec C16.Statement C16.Layout C16.Refuted.
+From Osmo Require Import Gen.C16_consts.
+From Osmo Require Import C16.Model C16.Spec C16.Statement C16.Layout C16.Refuted C16.SetProof C16.Refine.
 Open Scope Z_scope.
 
 (* the full statement: every history of set / increase / decrease / remove, every fan-out >= 2: no panic, the well-formedness
@@ -44,6 +45,54 @@ Theorem C16_orphan_refuted : exists st, run_new 2 w_orphan_ops = Ok st /\
   split_acc st kC = Ok (0, 3, 0) /\ sm_split (sm_run sm_init w_orphan_ops) kC = (5, 3, 0).
 Proof. exact w_orphan. Qed.
 Print Assumptions C16_orphan_refuted.
+
+(* PROVED PART.  set_only_refines: for every fan-out m >= 2 and every history of Set / Increase / Decrease (any keys, any
+   integers, any length) on a fresh tree: no panic, no fuel exhaustion; the well-formedness invariant WF (DESIGN 9.4) holds;
+   and every query answers like the sorted map with the same contents - point lookup, three-way split, subset sum (for
+   start <= end or one open end), prefix sum, ordered forward / reverse / ranged iteration - with TotalAccumulatedValue and
+   SubsetAccumulation(nil, nil) as the code actually computes them (the empty key's value, F2a); left+exact+right of any
+   split is the true total.  [op_ok]: an operation's nil-slice flag is only set for the empty key.
+   The split position is the generated constant pair (gen_split_div, gen_split_add) read from node.go on every run. *)
+Theorem set_only_refines : forall m ops, (2 <= m)%nat -> Forall op_ok ops -> set_only ops ->
+  exists st, run_new m ops = Ok st /\ WF m st /\ answers_actual st (sm_run sm_init ops).
+Proof. exact set_only_refines_lemma. Qed.
+Print Assumptions set_only_refines.
+
+(* the query half on its own: ANY store that satisfies WF - however it was reached, Remove included - answers every query
+   like the sorted map of its leaves.  (remove_safe_partial, query half: queries stay correct while the invariant, in
+   particular "every node is keyed by its first entry", still holds.)  Not proved: that the leaves of a store reached through
+   Remove are the sorted map's contents (pull never touches level 0 - checked by correspondence only). *)
+Theorem remove_safe_partial : forall m st, WF m st -> answers_actual st (abs st).
+Proof. exact wf_answers. Qed.
+Print Assumptions remove_safe_partial.
+
+(* NewTree establishes the invariant; one Set / Increase / Decrease preserves it and acts on the leaves like the map's set *)
+Theorem C16_new_tree_wf : forall m, (2 <= m)%nat -> new_tree m = Ok store0 /\ WF m store0 /\ abs store0 = sm_init.
+Proof. intros m Hm. split; [apply new_tree_eq|apply store0_wf; exact Hm]. Qed.
+Print Assumptions C16_new_tree_wf.
+Theorem C16_step_preserves : forall m st o, (2 <= m)%nat -> WF m st -> op_ok o -> is_remove o = false ->
+  exists st', apply_op m st o = Ok st' /\ WF m st' /\ abs st' = sm_apply (abs st) o.
+Proof. exact apply_op_wf. Qed.
+Print Assumptions C16_step_preserves.
+
+(* the generated constants are the ones the proofs were carried out for *)
+Example C16_consts_checked : gen_split_div = 2%nat /\ gen_split_add = 1%nat /\ gen_node_prefix = [110; 111; 100; 101; 47].
+Proof. repeat split; reflexivity. Qed.
+
+(* non-vacuity: m = 2, ten operations inserting in outside-in order with an update, a decrease below zero and the nil key:
+   the hypotheses hold, the tree has grown to 31 nodes (root at level 6), and the concrete answers are the map's *)
+Definition nv_ops : list op :=
+  [OSet [98] false 5; OSet [255] false 7; OSet [97; 0] false 11; OInc [254] false 13; OSet [97] false 17;
+   ODec [99; 99] false 40; OSet [] true 3; OInc [98] false 100; OSet [98; 0] false 1; OSet [0] false 2].
+Example set_only_refines_nonvacuous :
+  Forall op_ok nv_ops /\ set_only nv_ops /\
+  exists st, run_new 2 nv_ops = Ok st /\ root st = Some (mkPtr 6 [] false) /\ length st = 31%nat /\
+    split_acc st [98] = Ok (33, 105, -19) /\ sm_split (sm_run sm_init nv_ops) [98] = (33, 105, -19) /\
+    total_acc st = Ok 3 /\ sm_total (sm_run sm_init nv_ops) = 119.
+Proof.
+  split; [repeat constructor; unfold nil_flag_ok; try discriminate; auto|]. split; [reflexivity|].
+  eexists; split; [vm_compute; reflexivity|]. vm_compute. repeat split; reflexivity.
+Qed.
 
 (* byte layout: the raw store keys "node/" ++ be16(level) ++ key compare exactly like the (level, key) pairs the model's
    store is keyed by; every key of a level is below PrefixEndBytes(nodeKey(level, nil)), no key of a higher level is *)
